@@ -26,4 +26,5 @@ Definition key_carray (a : carray) : str :=
 Definition blob_carray (fx : bool) (a : carray) : bool * bool * bool * bool * N :=
   (ka_ptr a, ka_zero a, ka_has_len a,
    (if fx then ka_has_size a && negb (ka_has_len a) else ka_has_size a),
-   (if ka_has_len a then ka_len a else if ka_has_size a then ka_size a else 65535)).
+   (* the dimension is a guint16: a larger index or size is stored modulo 2^16 (known finding C06-K2 for sizes) *)
+   (if ka_has_len a then ka_len a mod 65536 else if ka_has_size a then ka_size a mod 65536 else 65535)).
